@@ -93,10 +93,11 @@ TU = [
     # struct tags: names (case-insensitive), kinds, `string` option, duplicates, unknown members
     (0, 0, '{"?":1}', ALL3, 1), (0, 0, '{"a":??}', ALL3, 1), (0, 0, '{"e":"?"}', ALL3, 1), (0, 0, '{"e":?}', ["syntax-error", "semantic-error"], 1),
     (0, 0, '{"e":"-?"}', ALL3, 0), (0, 0, '{"e":"nul?"}', ["ok", "semantic-error"], 1), (0, 0, '{"h":"tru?"}', ["ok", "semantic-error"], 1), (0, 0, '{"h":"?"}', ["syntax-error", "semantic-error"], 0),
-    (0, 0, '{"i":"\\"?\\""}', ALL3, 1), (0, 0, '{"i":"?"}', ["syntax-error", "semantic-error"], 0), (0, 0, '{"bee":?,"BEE":"x"}', ALL3, 1), (0, 0, '{"a":1,"A":?}', SYN, 1),
+    (0, 0, '{"i":"\\"?\\""}', SYN, 1), (0, 0, '{"i":"?"}', ["syntax-error", "semantic-error"], 0), (0, 0, '{"bee":?,"BEE":"x"}', ["syntax-error", "semantic-error"], 1), (0, 0, '{"a":1,"A":?}', SYN, 1),
     (0, 0, '{"x":?}', SYN, 0), (0, 0, '{"u":?,"f":?}', SYN, 0), (0, 0, '{"-":"?"}', SYN, 1), (0, 0, '{"a":n?ll}', SYN, 0), (0, 0, '{"a":12?}', ALL3, 1),
-    (0, 0, '{"a":-12?}', ALL3, 0), (0, 0, '{"a":1?0}', ALL3, 1), (0, 0, '{"d":?e0}', ALL3, 0), (0, 0, '{"a":1}?', SYN, 1), (0, 0, '[?]', ["syntax-error", "semantic-error"], 0),
-    (0, 0, '??', ALL3, 1), (0, 0, '{"a":1?"d":2}', SYN, 0), (0, 0, '{"\\u00?1":5}', SYN, 1), (0, 0, '{"??":true}', ALL3, 0), (0, 0, '{"BE?":"z"}', SYN, 0),
+    (0, 0, '{"a":-12?}', ALL3, 0), (0, 0, '{"a":1?0}', ALL3, 1), (0, 0, '{"d":?e0}', ["syntax-error", "semantic-error"], 0), (0, 0, '{"a":1}?', SYN, 1), (0, 0, '[?]', ["syntax-error", "semantic-error"], 0),
+    (0, 0, '??', ALL3, 1), (0, 0, '{"a":1?"d":2}', SYN, 0), (0, 0, '{"\\u00?1":5}', SYN, 1), (0, 0, '{"??":true}', SYN, 0), (0, 0, '{"BE?":"z"}', SYN, 0),
+    (0, 0, '{"e":"??"}', ALL3, 1), (0, 0, '{"i":"nul?"}', ["semantic-error"], 1), (0, 0, '{"i":"\\"\\\\ud8?0\\""}', [], 0),
     # embedding
     (1, 0, '{"?":1}', ALL3, 1), (1, 1, '{"?":2}', ALL3, 1), (1, 0, '{"k":?}', SYN, 1), (1, 0, '{"v":tru?}', SYN, 0), (1, 1, '{"Y":"?"}', SYN, 0), (1, 0, '{"%E2%84?":1}', SYN, 1),
     (1, 0, '{"x":?,"k":?}', SYN, 0), (1, 0, '{"z":?,"Z":1}', SYN, 0),
@@ -104,8 +105,8 @@ TU = [
     (2, 0, '{"m":{"?":1}}', SYN, 1), (2, 1, '{"m":{"b":?}}', SYN, 1), (2, 1, '{"m":{"?":1,"?":2}}', SYN, 0), (2, 1, '{"m":nul?}', SYN, 1), (2, 0, '{"m":[?]}', ["syntax-error", "semantic-error"], 0),
     (2, 0, '{"n":{"??":"x"}}', ALL3, 1), (2, 1, '{"n":{"1?":"y"}}', ALL3, 1), (2, 0, '{"n":{"12?":"x"}}', ALL3, 0), (2, 0, '{"n":{"-?":"x","-1":"y"}}', ALL3, 0), (2, 1, '{"o":{"?":tru?}}', SYN, 0),
     # slices, arrays, []byte
-    (3, 1, '{"y":"AA??"}', ALL3, 1), (3, 0, '{"y":"?AA="}', ALL3, 0), (3, 1, '{"y":[?]}', ALL3, 1), (3, 1, '{"y":nul?}', SYN, 0), (3, 0, '{"a":[?]}', ALL3, 1), (3, 0, '{"a":[1,2,?]}', SYN, 1),
-    (3, 1, '{"l":[?]}', ALL3, 1), (3, 1, '{"l":[?,?]}', ALL3, 0), (3, 1, '{"l":nul?}', SYN, 0), (3, 0, '{"ba":[?,3]}', ALL3, 1), (3, 0, '{"ba":"AA?="}', ["syntax-error", "semantic-error"], 0),
+    (3, 1, '{"y":"AA??"}', ALL3, 1), (3, 0, '{"y":"?AA="}', ALL3, 0), (3, 1, '{"y":[?]}', SYN, 1), (3, 1, '{"y":nul?}', SYN, 0), (3, 0, '{"a":[?]}', SYN, 1), (3, 0, '{"a":[1,2,?]}', SYN, 1),
+    (3, 1, '{"l":[?]}', SYN, 1), (3, 1, '{"l":[?,?]}', ALL3, 0), (3, 1, '{"l":nul?}', SYN, 0), (3, 0, '{"ba":[?,3]}', SYN, 1), (3, 0, '{"ba":"AA?="}', ["syntax-error", "semantic-error"], 0),
     (3, 1, '{"s":[nul?]}', SYN, 1), (3, 1, '{"s":["?"]}', SYN, 0), (3, 1, '{"s":[?]}', ALL3, 0), (3, 0, '{"z":[?]}', SYN, 1), (3, 1, '{"l":[?', ["syntax-error"], 0),
     # pointers, interfaces
     (4, 0, '{"p":?}', SYN, 1), (4, 1, '{"p":nul?}', SYN, 1), (4, 1, '{"q":"?"}', SYN, 0), (4, 0, '{"pp":tru?}', SYN, 0), (4, 1, '{"pp":nul?}', SYN, 0), (4, 0, '{"i":?}', SYN, 1),
@@ -127,22 +128,25 @@ TU = [
 # float32/float64 with the `string` option: concrete texts around the float32 / float64 range
 TF = [('{"f":"3.5e38"}', "semantic-error"), ('{"f":"1e39"}', "semantic-error"), ('{"f":"1e300"}', "semantic-error"), ('{"f":"1.5"}', "ok"), ('{"f":"3.4028235e38"}', "ok"),
       ('{"f":"-3.5e38"}', "semantic-error"), ('{"f":"1e-50"}', "ok"), ('{"g":"1e300"}', "ok"), ('{"g":"1e400"}', "semantic-error"), ('{"h":3.5e38}', "semantic-error"),
-      ('{"h":1.5}', "ok"), ('{"f":1.5}', "semantic-error"), ('{"f":"+1"}', "semantic-error"), ('{"f":"01"}', "semantic-error"), ('{"f":" 1"}', "semantic-error"), ('{"f":"1e5"}', "ok"), ('{"f":"null"}', "ok"),
-      ('{"f":"Inf"}', "semantic-error"), ('{"f":"0x1p-2"}', "semantic-error"), ('{"f":"1_0"}', "semantic-error"), ('{"f":""}', "semantic-error")]
+      ('{"h":1.5}', "ok"), ('{"f":1.5}', "semantic-error"), ('{"f":"+1"}', None), ('{"f":"01"}', "ok"), ('{"f":" 1"}', "semantic-error"), ('{"f":"1e5"}', "ok"), ('{"f":"null"}', "ok"),
+      ('{"f":"Inf"}', None), ('{"f":"0x1p-2"}', "ok"), ('{"f":"1_0"}', "ok"), ('{"f":""}', "semantic-error")]
 # Decoder: (skeleton, target, useNumber, disallow, covers, quick?)
 TD = [
-    ('[1 ,?]', 0, False, False, ["decoded", "token", "more", "no-more"], 1),
-    ('{"a":?} 7', 0, False, False, ["decoded", "token", "more"], 1),
-    (' [?]\n[2]', 0, False, False, ["decoded", "token", "more"], 1),
-    ('[1 ,?]', 0, True, False, ["decoded", "token"], 1),
+    ('[1 ,?]', 2, False, False, ["decoded", "token", "more", "no-more"], 1),
+    ('{"a":?} 7', 2, False, False, ["decoded", "token", "more"], 1),
+    (' [?]\n[2]', 2, False, False, ["decoded", "token", "more"], 1),
+    ('[1 ,?]', 2, True, False, ["decoded", "token"], 1),
     ('{"a":1,"?":2} ', 1, False, True, ["decoded", "token", "error"], 1),
     ('{"a":1,"?":2} ', 1, False, False, ["decoded", "token"], 0),
-    ('?1 ?', 0, False, False, ["decoded", "token", "error"], 1),
+    ('?1 ?', 2, False, False, ["decoded", "token", "error"], 1),
+    ('1?2', 2, True, False, ["decoded", "token"], 0),
+    ('{"a" :? , "b":2}', 2, False, False, ["decoded", "token"], 0),
+    ('[1]?', 2, False, False, ["decoded", "token", "token-eof"], 1),
+    # Decode into an any (needs reflect.Value.Equal on a zero Value and Value.NumMethod in the engine)
+    ('[1 ,?]', 0, False, False, ["decoded", "token", "more", "no-more"], 0),
+    ('[1 ,?]', 0, True, False, ["decoded", "token"], 0),
     ('["?",{"b":[?]}]', 0, False, False, ["decoded", "token"], 0),
-    ('1?2', 0, True, False, ["decoded", "token"], 0),
     ('[tru?,nul?]', 0, False, False, ["decoded", "token"], 0),
-    ('{"a" :? , "b":2}', 0, False, False, ["decoded", "token"], 0),
-    ('[1]?', 0, False, False, ["decoded", "token", "token-eof"], 1),
 ]
 # Encoder: (kind, variant, skeleton, indent, escapeHTML, reset, quick?)
 TE = [
@@ -165,7 +169,7 @@ def typed_obligations(q):
             continue
         L.append(ob("tunmarshal/k%d/v%d/%s" % (kind, var, t), "v1", "VerifC09TUnmarshal", [kind, var, t], covers=cov, **kw))
     for t, cov in TF:
-        L.append(ob("tunmarshal/float/%s" % t, "v1", "VerifC09TUnmarshal", [7, 0, t], covers=[cov], **kw))
+        L.append(ob("tunmarshal/float/%s" % t, "v1", "VerifC09TUnmarshal", [7, 0, t], covers=[cov] if cov else [], **kw))
     for t, target, un, dis, cov, quick in TD:
         if q and not quick:
             continue
